@@ -462,6 +462,7 @@ pub(crate) mod verif_probe {
             settings.plugins = Some(plugins);
         }
         if v["query_parser"].as_bool() == Some(true) { settings.query_parser_enabled = true; settings.query_parser_read_write_splitting = true; }
+        match v["default_role"].as_str() { Some("primary") => settings.default_role = Some(Role::Primary), Some("replica") => settings.default_role = Some(Role::Replica), _ => {} }
         if let Some(r) = v["shard_id_regex"].as_str() { settings.shard_id_regex = Some(regex::Regex::new(r).unwrap()); }
         if let Some(r) = v["sharding_key_regex"].as_str() { settings.sharding_key_regex = Some(regex::Regex::new(r).unwrap()); }
         let pool = ConnectionPool {
@@ -478,6 +479,13 @@ pub(crate) mod verif_probe {
             POOLS.store(Arc::new(pools));
         }
         let (shutdown_tx, _keep) = tokio::sync::broadcast::channel::<()>(1);
+        // "every timing of the cancel relative to checkout and release": another task may hold the (process-wide) client/server map at any
+        // instant -- a thread that holds it almost all the time makes every non-blocking attempt to take it fail
+        let contend_stop = Arc::new(AtomicBool::new(false));
+        if v["contend_csmap"].as_bool() == Some(true) {
+            let m = csmap.clone(); let stop = contend_stop.clone();
+            std::thread::spawn(move || { while !stop.load(Ordering::Relaxed) { { let _g = m.lock(); std::thread::sleep(std::time::Duration::from_millis(15)); } std::thread::sleep(std::time::Duration::from_micros(300)); } });
+        }
         let (mut a, a_task) = connect_client_with(&db, &usern, csmap.clone(), &shutdown_tx, &v["startup_params"]);
         if read_until_ready(&mut a).await.is_none() { return json!({"error": "client A could not log in"}); }
         // forget what the backends saw during validation / startup
@@ -546,6 +554,8 @@ pub(crate) mod verif_probe {
                                   pool: &ConnectionPool, a_task_result: String, a_out: Vec<u8>) -> Value {
         let db = db.to_string(); let usern = usern.to_string(); let v = v.clone();
         let paused_at_end = pool.paused();
+        let bans = pool.get_bans().len();
+        if v["contend_csmap"].as_bool() == Some(true) { tokio::time::sleep(Duration::from_millis(40)).await; }
         // what SHOW CLIENTS / SHOW SERVERS would list for this pool now (A idle or gone)
         tokio::time::sleep(Duration::from_millis(30)).await;
         let clients_after_a: Vec<Value> = crate::stats::get_client_stats().values().filter(|c| c.pool_name() == db)
@@ -580,7 +590,7 @@ pub(crate) mod verif_probe {
             "delivered": r.delivered.iter().map(|d| hexs(d)).collect::<Vec<_>>(), "status_after": r.status_after,
             "before": {"status": r.before.status, "copy_in": r.before.copy_in, "dirty_set": r.before.dirty_set, "role_set": r.before.role_set,
                        "sql_prepared": r.before.sql_prepared, "named": r.before.named, "unsynced": r.before.unsynced, "params": r.before.params}})).collect();
-        json!({"clients_after_a": clients_after_a, "servers_after_a": servers_after_a, "csmap_after_a": csmap_after_a, "a_result": a_task_result, "a_out": hexs(&a_out), "b_out": hexs(&b_out), "b_state": b_state, "reqs": reqs, "paused_at_end": paused_at_end})
+        json!({"bans": bans, "clients_after_a": clients_after_a, "servers_after_a": servers_after_a, "csmap_after_a": csmap_after_a, "a_result": a_task_result, "a_out": hexs(&a_out), "b_out": hexs(&b_out), "b_state": b_state, "reqs": reqs, "paused_at_end": paused_at_end})
     }
 
     /// Client A runs `prep` queries (simple protocol), then sends the raw `trigger` bytes and is awaited;
@@ -1007,6 +1017,76 @@ pub(crate) mod verif_probe {
                     let conns = log.lock().conns;
                     json!({"pool_size": n, "held_at_once": max_held, "held_at_once_min": min_held, "backend_connections": conns})
                 }))
+            }
+            "mirror_task_slow" => {
+                // the real MirroringManager / MirroredClient task against a mirror that accepts the connection, then reads nothing for 3 s, then
+                // reads everything: a request larger than the socket buffers is mirrored, a second one 3.5 s later.  Is what the mirror
+                // receives a sequence of whole requests?
+                let rt = tokio::runtime::Builder::new_multi_thread().worker_threads(3).enable_all().build().unwrap();
+                let r = rt.block_on(async move { timeout(Duration::from_secs(40), async move {
+                    let listener = TcpListener::bind("127.0.0.1:0").await.unwrap();
+                    let port = listener.local_addr().unwrap().port();
+                    let got: Arc<Mutex<Vec<Vec<u8>>>> = Arc::new(Mutex::new(vec![]));
+                    let got2 = got.clone();
+                    tokio::spawn(async move {
+                        loop {
+                            let (mut sock, _) = match listener.accept().await { Ok(c) => c, Err(_) => return };
+                            let got3 = got2.clone();
+                            tokio::spawn(async move {
+                                let len = match sock.read_i32().await { Ok(l) => l, Err(_) => return };
+                                let mut startup = vec![0u8; len as usize - 4];
+                                if sock.read_exact(&mut startup).await.is_err() { return; }
+                                let mut out = BytesMut::new();
+                                out.put_u8(b'R'); out.put_i32(8); out.put_i32(0);
+                                out.put(server_parameter_message("server_version", "14.0"));
+                                out.put_u8(b'K'); out.put_i32(12); out.put_i32(1); out.put_i32(1234);
+                                out.put(ready_for_query(false));
+                                if sock.write_all(&out).await.is_err() { return; }
+                                let idx = { let mut g = got3.lock(); g.push(vec![]); g.len() - 1 };
+                                tokio::time::sleep(Duration::from_millis(3000)).await;
+                                let mut buf = vec![0u8; 1 << 20];
+                                loop {
+                                    match timeout(Duration::from_millis(2500), sock.read(&mut buf)).await {
+                                        Ok(Ok(0)) | Ok(Err(_)) | Err(_) => return,
+                                        Ok(Ok(n)) => { got3.lock()[idx].extend_from_slice(&buf[..n]); }
+                                    }
+                                }
+                            });
+                        }
+                    });
+                    let mut cfg = crate::config::Config::default();
+                    cfg.general.validate_config = false;
+                    crate::config::verif_probe::set_config(cfg);
+                    let addr = Address { host: "127.0.0.1".to_string(), port, role: Role::Mirror, database: "db".to_string(), username: "u".to_string(),
+                                         pool_name: "verif_mirror".to_string(), ..Address::default() };
+                    let user = User { username: "u".to_string(), password: Some("p".to_string()), ..User::default() };
+                    let mut mgr = crate::mirrors::MirroringManager::from_addresses(user, "db".to_string(), vec![addr]);
+                    tokio::time::sleep(Duration::from_millis(300)).await;
+                    let big = simple_query(&"x".repeat(24 << 20));
+                    let small = simple_query("SELECT 2");
+                    mgr.send(&BytesMut::from(&big[..]));
+                    tokio::time::sleep(Duration::from_millis(3500)).await;
+                    mgr.send(&BytesMut::from(&small[..]));
+                    tokio::time::sleep(Duration::from_millis(7000)).await;
+                    let streams = got.lock().clone();
+                    // every connection: whole frames only (a cut frame only as its last bytes AND nothing after it), frames equal to the requests in order
+                    let mut ok_all = true; let mut detail = vec![];
+                    for (ci, s) in streams.iter().enumerate() {
+                        let mut pos = 0usize; let mut frames = vec![];
+                        while pos + 5 <= s.len() {
+                            let len = i32::from_be_bytes([s[pos + 1], s[pos + 2], s[pos + 3], s[pos + 4]]) as usize;
+                            let complete = pos + 1 + len <= s.len();
+                            let body_ok = if complete { &s[pos..pos + 1 + len] == &big[..] || &s[pos..pos + 1 + len] == &small[..] } else { big.starts_with(&s[pos..]) || small.starts_with(&s[pos..]) };
+                            frames.push(json!([s[pos], len + 1, complete, body_ok]));
+                            if !body_ok { ok_all = false; }
+                            if !complete { break; }
+                            pos += 1 + len;
+                        }
+                        detail.push(json!({"connection": ci, "bytes": s.len(), "frames": frames}));
+                    }
+                    json!({"whole_requests_only": ok_all, "detail": detail})
+                }).await });
+                Some(match r { Ok(x) => x, Err(_) => json!({"error": "scenario timed out"}) })
             }
             "config_identity" => {
                 // two definitions that differ in exactly one field (at `path` inside a fully populated config::Pool, or a field of General /
